@@ -47,6 +47,15 @@ GLOBAL_REWRITES = [
      "snafu context: identity on Ok, opaque error on Err; error content dropped"),
     ("snafu_fail", r"\b[A-Za-z_][A-Za-z0-9_:]*Snafu\s*(\{[^{}]*\})?\s*\.fail\(\)", r"Err(opaque_error())",
      "snafu fail(): same control flow, error content dropped"),
+    ("snafu_ensure", r"(?s)\bensure!\(\s*(.*?),\s*[A-Za-z_][A-Za-z0-9_:]*Snafu\s*(?:\{[^{}]*\})?\s*,?\s*\);",
+     r"if !(\1) { return Err(opaque_error()); }",
+     "snafu ensure!(cond, ctx): same control flow (return Err unless cond), error content dropped"),
+    ("io_copy_take_sink", r"(?s)std::io::copy\(\s*&mut ([\w\.]+)\.by_ref\(\)\.take\(([^;]*?)\),\s*&mut std::io::sink\(\),?\s*\)",
+     r"\1.copy_take(\2)",
+     "io::copy(&mut r.by_ref().take(n), &mut sink()): shim consuming at most n bytes and returning the count"),
+    ("io_copy_take_out", r"(?s)std::io::copy\(\s*&mut ([\w\.]+)\.by_ref\(\)\.take\(([^;]*?)\),\s*&mut out,?\s*\)",
+     r"\1.copy_take(\2)",
+     "io::copy(&mut r.by_ref().take(n), &mut out): as above; the destination's content is not modelled"),
 ]
 
 DROP_STMT = [
